@@ -350,7 +350,7 @@ def check(chk: Check) -> None:
     chk.rule("C12.OWN.metadata-untouched", "the writer never fills the frame metadata map", floor=6)
     chk.trusted += ["protobuf serialisation is a deterministic function of the message when deterministic=True / no map fields are set", "rdflib store iteration order for a given store is not analysed"]
     chk.undecided += ["rdflib's iteration order, protobuf internals, true parallelism inside C extensions"]
-    traces(chk)
-    fresh_state(chk)
-    defaults(chk)
-    syntactic_sweep(chk)
+    chk.part("traces", lambda: traces(chk))
+    chk.part("fresh-state", lambda: fresh_state(chk))
+    chk.part("defaults", lambda: defaults(chk))
+    chk.part("sweep", lambda: syntactic_sweep(chk))
